@@ -74,6 +74,10 @@ pub struct Job {
     pub addresses: Vec<(u16, u32)>,
     /// read entries and contents (C05/C06) or only run the checks (C04)
     pub full: bool,
+    /// after the dump: this many threads read every content of a freshly opened container at the
+    /// same time (several readers waiting on one damaged cluster), results are not compared
+    #[serde(default)]
+    pub concurrent: u8,
 }
 
 fn check_pack_reader(r: &jbk::Reader) -> Result<bool, String> {
@@ -204,6 +208,42 @@ pub fn run_job(job: &Job) -> FDump {
             }
         };
         d.contents.insert(key, v);
+    }
+    if job.concurrent > 1 {
+        if let Ok(c2) = jbk::reader::Container::new(dir.join(&job.main)) {
+            let c2 = std::sync::Arc::new(c2);
+            let n = job.concurrent as usize;
+            let barrier = std::sync::Arc::new(std::sync::Barrier::new(n));
+            let addrs = std::sync::Arc::new(job.addresses.clone());
+            let handles: Vec<_> = (0..n)
+                .map(|t| {
+                    let c2 = std::sync::Arc::clone(&c2);
+                    let barrier = std::sync::Arc::clone(&barrier);
+                    let addrs = std::sync::Arc::clone(&addrs);
+                    std::thread::spawn(move || {
+                        barrier.wait();
+                        let mut total = 0u64;
+                        // all threads start with the same content (same cluster), then diverge
+                        for k in 0..addrs.len() {
+                            let (p, cid) = addrs[if k == 0 { 0 } else { (k + t) % addrs.len() }];
+                            if let Ok(Some(jbk::reader::MayMissPack::FOUND(Some(r)))) = c2.get_bytes(jbk::ContentAddress::new(p.into(), cid.into())) {
+                                let mut v = Vec::new();
+                                if r.stream().take(64 << 20).read_to_end(&mut v).is_ok() {
+                                    total += v.len() as u64;
+                                }
+                            }
+                        }
+                        total
+                    })
+                })
+                .collect();
+            for h in handles {
+                // a panicking reader thread must kill the child like any other panic
+                if h.join().is_err() {
+                    std::process::exit(101);
+                }
+            }
+        }
     }
     d
 }
